@@ -4,7 +4,7 @@ CONSTANTS
   Kind <- MCKind
   Class <- MCClass
   Fam <- MCFam
-  Cases <- MCCases
+  Cases = {}
   Sizes = {0, 1, 6, 13, 19, 24}
   Starts = {0, 1, 4, 9}
   Ends = {0, 5, 17, 24}
@@ -14,6 +14,7 @@ CONSTANTS
   NMs = {1, 2, 3, 4, 5, 6}
   Bufs = {0, 1, 3, 16}
   NFs = {1, 2, 4}
+  LawBatches = {1, 2, 3, 4, 5, 6, 7, 8, 9, 10, 11, 12, 13, 14, 15, 16}
 INIT MCInit
 NEXT Next
 INVARIANTS LawsHold ExportCover
